@@ -220,6 +220,7 @@ func (g *DirectedTargetGraph) FindCycle() ([]model.BuildNode, bool) {
 		stack = append(stack, target)
 
 		for _, neighbor := range g.outEdges[target.GetLabel()] {
+			verifhook.Count("graph.cycle.visit")
 			if visited[neighbor] == 0 {
 				if depthFirstSearch(neighbor) {
 					return true // Cycle detected in descendant
